@@ -13,12 +13,14 @@ From Verif Require Import Base Memo.
 Import ListNotations.
 Open Scope N_scope.
 
-Record obs_entry := mk_obs { o_key : bytes; o_type : bytes; o_desc : bytes; o_owners : list N }.
+(* o_type: 1 *regexp.Regexp, 2 *binaryregexp.Regexp, 3 *operators.rxCompiled,
+   4 ahocorasick.AhoCorasick, 5 *jsonschema.Schema, 0 anything else *)
+Record obs_entry := mk_obs { o_key : bytes; o_type : N; o_desc : bytes; o_owners : list N }.
 
 Inductive status := StBuilt | StFailed | StPanicked.
 
 Inductive cev :=
-| CBuild (id : N) (rs : list creq) (st : status) (narts : nat) (snap : list obs_entry)
+| CBuild (id : N) (rs : list creq) (st : status) (snap : list obs_entry)
 | CClose (id : N) (snap : list obs_entry).
 
 Record case := mk_case {
@@ -39,14 +41,14 @@ Fixpoint assoc (x : bytes) (l : list (bytes * bytes)) : bytes :=
   end.
 
 (* ---- what the harness can observe of an artefact ---- *)
-Definition art_type (a : cart) : bytes :=
+Definition art_type (a : cart) : N :=
   match a with
-  | ARegexp _ => str "*regexp.Regexp"
-  | ABinRegexp _ => str "*binaryregexp.Regexp"
-  | ARxCompiled _ _ => str "*operators.rxCompiled"
-  | AAho _ _ => str "ahocorasick.AhoCorasick"
-  | ASchema _ => str "*jsonschema.Schema"
-  end%string.
+  | ARegexp _ => 1
+  | ABinRegexp _ => 2
+  | ARxCompiled _ _ => 3
+  | AAho _ _ => 4
+  | ASchema _ => 5
+  end.
 
 (* an Aho-Corasick matcher (ASCII case-insensitive, substring semantics) matches a word iff one
    of its patterns occurs in it *)
@@ -71,16 +73,16 @@ Definition snap_ok (c : case) (m : cache cart) (snap : list obs_entry) : bool :=
   Nat.eqb (length m) (length snap)
   && forallb (fun o =>
        match load cart m (o_key o) with
-       | Some e => bytes_eqb (art_type (e_val e)) (o_type o)
+       | Some e => N.eqb (art_type (e_val e)) (o_type o)
                    && bytes_eqb (art_desc c (e_val e)) (o_desc o)
                    && owners_eqb (e_owners e) (o_owners o)
                    && negb (e_deleted e)
        | None => false
        end) snap.
 
-Definition status_ok (o : outcome cart cerr) (st : status) (n : nat) : bool :=
+Definition status_ok (o : outcome cart cerr) (st : status) : bool :=
   match o, st with
-  | Built l, StBuilt | Failed l _, StFailed | Panicked l, StPanicked => Nat.eqb (length l) n
+  | Built _, StBuilt | Failed _ _, StFailed | Panicked _, StPanicked => true
   | _, _ => false
   end.
 
@@ -99,9 +101,9 @@ Section Run.
   Fixpoint events_ok (s : pstate cart) (evs : list cev) : bool :=
     match evs with
     | [] => true
-    | CBuild id rs st n snap :: r =>
+    | CBuild id rs st snap :: r =>
         let s' := mstep s (EBuild id rs) in
-        status_ok (snd (mconstruct (ps_cache s) id rs)) st n
+        status_ok (snd (mconstruct (ps_cache s) id rs)) st
         && snap_ok c (ps_cache s') snap
         && events_ok s' r
     | CClose id snap :: r =>
